@@ -7,6 +7,7 @@ import (
 	"github.com/aperturerobotics/bifrost/peer"
 	"github.com/aperturerobotics/bifrost/protocol"
 	"github.com/aperturerobotics/controllerbus/directive"
+	"github.com/sirupsen/logrus"
 	rt "github.com/aperturerobotics/bifrost/zz_verifrt"
 )
 
@@ -42,7 +43,7 @@ func c34Stream() (link.HandleMountedStream, string, peer.ID, peer.ID) {
 func VerifC34Echo() {
 	cfgPid := rt.String("cfgProtocol", 0, 2)
 	cfgLocal := c34Peer("cfgLocal")
-	c := &Controller{conf: &Config{ProtocolId: cfgPid}, localPeerID: cfgLocal}
+	c := &Controller{le: logrus.NewEntry(logrus.New()), conf: &Config{ProtocolId: cfgPid}, localPeerID: cfgLocal}
 	d, pid, local, _ := c34Stream()
 	res, err := c.HandleDirective(context.Background(), c34DI{d: d})
 	rt.Assert("no error", err == nil)
